@@ -522,10 +522,10 @@ def password_secrets(line):
 
 
 def overlaps(line, k, a, b):
-    """an occurrence of `k` in `line` overlaps the span [a, b)"""
+    """an occurrence of `k` in `line` overlaps or touches the span [a, b)"""
     i = line.find(k)
     while i >= 0:
-        if i < b and i + len(k) > a:
+        if i <= b and i + len(k) >= a:      # overlapping or touching: glued text changes how the key is read, too
             return True
         i = line.find(k, i + 1)
     return False
@@ -561,7 +561,9 @@ class Oracle(object):
       keyword   no configured keyword occurs in the output outside issued substitutes
       password  a secret in an accepted notation does not occur in the output
       ipv4 / host / mac   (obfuscation on) a delimited token of the input does not occur in the output
-                outside issued substitutes
+                outside issued substitutes — in particular a token that is merely textually RELATED to an ignored
+                item (27.0.0.1, 127.0.0.10, 00:00:00:00:00:01): the ignore lists are lists of whole items
+      ignored-rewritten   the ignored items themselves (127.0.0.1, all-zero / broadcast MAC) stay
     Exemptions are those of the property: no_redact / no_obfuscate of the call, loopback, all-zero /
     broadcast MAC, text that coincides with an issued substitute.
     """
@@ -726,6 +728,50 @@ class Oracle(object):
                         continue
                     if t in ipv4_tokens(o) and leaks(t, o, strict, ipv4_tokens):
                         self.fails.append(("ipv4", "address %r of line %r occurs in the output %r" % (t, l, o), None))
+        # -- the ignored items themselves stay (as the code leaves them): 127.0.0.1, the all-zero / broadcast MAC in ':' form.
+        # Not claimed where another rewrite legitimately touches the text: an address of the line that is a substring of
+        # the ignored one (27.0.0.1 is replaced inside 127.0.0.1 by str.replace), a keyword or the system's name inside
+        # it, an IPv6 match on the content, the width-mode deletion, a password key on the line (the item may be masked as a secret).
+        earlier_keys = [k for k in kws_db if "keyword" not in no_obf]
+        if self.host_active(cfg, no_obf):
+            earlier_keys += [cfg["fqdn"].split(".")[0], cfg["fqdn"]]
+        quiet = not any(r.v6) and "" not in earlier_keys
+
+        def untouched(tok, l):
+            if "password" not in no_obf and "password" in l:
+                return False                 # the item may be masked as (part of) a password secret
+            return quiet and not width_eats(case, l) and not any(k and k in tok for k in earlier_keys)
+        def isolated(l, i, n):
+            """no host-name character, word character, ':' or '-' next to l[i:i+n]: no other recogniser can take it in"""
+            def free(c):
+                return not (c in HOSTCH or is_word(c) or c in ":-")
+            return (i == 0 or free(l[i - 1])) and (i + n >= len(l) or free(l[i + n]))
+
+        def occurrences(l, t):
+            out, i = [], l.find(t)
+            while i >= 0:
+                out.append(i)
+                i = l.find(t, i + 1)
+            return out
+        if "ip" not in no_obf:
+            for l, o, strict in pairs:
+                occ = occurrences(l, "127.0.0.1")
+                if strict or not occ or not untouched("127.0.0.1", l) or not all(isolated(l, i, 9) for i in occ):
+                    continue
+                if any(a != "127.0.0.1" and a in "127.0.0.1" for _, a in ipv4_loose(l)):
+                    continue
+                if o.count("127.0.0.1") < len(occ):
+                    self.fails.append(("ignored-rewritten", "the loopback address of line %r (on the ignore list) is not in the output %r" % (l, o), None))
+        if cfg["mac"] and "mac" not in no_obf:
+            for l, o, strict in pairs:
+                if strict:
+                    continue
+                for t in set(t for t, _ in mac_tokens(l)):
+                    occ = occurrences(l, t)
+                    if ":" not in t or not mac_exempt(t) or not untouched(t, l) or not all(isolated(l, i, 17) for i in occ):
+                        continue
+                    if o.count(t) < len(occ):
+                        self.fails.append(("ignored-rewritten", "the MAC address %r of line %r (on the ignore list) is not in the output %r" % (t, l, o), None))
         # -- host names
         if self.host_active(cfg, no_obf):
             fqdn = cfg["fqdn"]
@@ -811,7 +857,43 @@ def system_domain(fqdn):
     return fqdn.split(".", 1)[1] if "." in fqdn else None
 
 
+# textually RELATED to an ignored item without being it (the ignore lists are lists of whole items)
+IP_NEAR = ["27.0.0.1", "7.0.0.1", "127.0.0.10", "127.0.0.11", "12.0.0.1", "127.0.0.100", "27.0.0.10", "127.0.0.2",
+           "126.0.0.1", "127.0.0.0", "227.0.0.1", "127.0.0.12", "1.127.0.0", "127.0.1.1"]
+MAC_NEAR = ["00:00:00:00:00:01", "01:00:00:00:00:00", "00:00:00:00:00:0f", "ff:ff:ff:ff:ff:fe", "fe:ff:ff:ff:ff:ff",
+            "0f:ff:ff:ff:ff:ff", "FF:FF:FF:FF:FF:FE", "00:00:00:00:00:ff", "ff:ff:ff:ff:ff:00", "00-00-00-00-00-00",
+            "ff-ff-ff-ff-ff-ff", "00:00:00:00:00:10", "f0:00:00:00:00:00"]
+MAC_IGNORED = ["00:00:00:00:00:00", "ff:ff:ff:ff:ff:ff", "FF:FF:FF:FF:FF:FF", "Ff:fF:ff:FF:ff:ff"]
+V6_NEAR = ["::1", "::11", "::1:1", "1::1", "::10", "fe80::1", "::1/128", "0:0:0:0:0:0:0:1", "::ffff:127.0.0.1"]
+
+
+def g_ignore_line(rng, cfg):
+    """neighbours of the ignored items: alone on a line, next to the ignored item itself, repeated"""
+    dom = system_domain(cfg["fqdn"])
+    hosts = ["localhost", "localhost.localdomain", "example.com", "host1.example.com"]
+    if dom:
+        hosts += ["localhost." + dom, "mylocalhost." + dom, "example.com." + dom, "host2.example.com." + dom, "x-localhost-1." + dom]
+    kind = rng.randrange(4)
+    pool, ign = [(IP_NEAR, ["127.0.0.1"]), (MAC_NEAR, MAC_IGNORED), (V6_NEAR, ["::1"]), (hosts, ["localhost"])][kind]
+    a = rng.choice(pool)
+    k = rng.randrange(6)
+    sepr = rng.choice([" ", " ", ", ", ",", " - ", "; "])
+    if k == 0:
+        return a
+    if k == 1:
+        return a + sepr + rng.choice(ign)
+    if k == 2:
+        return rng.choice(ign) + sepr + a
+    if k == 3:
+        return a + sepr + a + sepr + rng.choice(pool)
+    if k == 4:
+        return rng.choice(WORDS) + " " + rng.choice(ign) + sepr + a + sepr + rng.choice(ign) + " " + rng.choice(WORDS)
+    return rng.choice(ign)
+
+
 def g_ip(rng):
+    if rng.random() < 0.08:
+        return rng.choice(IP_NEAR)
     k = rng.randrange(10)
     if k == 0:
         return "127.0.0.1"
@@ -832,6 +914,8 @@ def g_ip_ctx(rng, ip):
 
 
 def g_mac(rng):
+    if rng.random() < 0.08:
+        return rng.choice(MAC_NEAR)
     k = rng.randrange(8)
     sep = rng.choice(":::-")
     if k == 0:
@@ -1088,6 +1172,8 @@ def g_case(rng, width_ok=True):
             l = g_line(rng, cfg, kws)
             if rng.random() < 0.06:
                 l = rng.choice(["", " ", "\t"])
+            elif rng.random() < 0.09:
+                l = g_ignore_line(rng, cfg)
             sided.append((l, "any"))
         markers = route != "single" and rng.random() < 0.6
     lines = []
@@ -1389,6 +1475,30 @@ def recogniser_streams(chk, n):
         lines.append("ipv4\t" + enc(s))
         impl.append(guard(lambda: items([m[0] for m in re.findall(ip.pattern, s)])))
         cases.append(("ipv4", s))
+    a_ig = IP_NEAR + ["127.0.0.1", "127.0.0.1", " ", " ", ",", "x", ":80", "/8", "1.2.3.4"]
+    for _ in range(n // 2):
+        s = gen(a_ig, 6) if rng.random() < 0.7 else g_ignore_line(rng, {"fqdn": "web1.abc.com"})
+
+        def ip_run(s=s):
+            o = IPv4()
+            if s:
+                o.parse_line(s)
+            return items([m["original"] for m in o.mapping()])       # issue order = substitution order
+        lines.append("ipkeys\t" + enc(s))
+        impl.append(guard(ip_run))
+        cases.append(("ipkeys", s))
+    a_mg = MAC_NEAR + MAC_IGNORED + MAC_IGNORED + [" ", " ", ",", "x", ":", "-", "52:54:00:aa:bb:cc"]
+    for _ in range(n // 2):
+        s = gen(a_mg, 5) if rng.random() < 0.7 else g_ignore_line(rng, {"fqdn": "web1.abc.com"})
+
+        def mac_run(s=s):
+            o = Mac()
+            if s:
+                o.parse_line(s)
+            return items([m["original"] for m in o.mapping()])
+        lines.append("mackeys\t" + enc(s))
+        impl.append(guard(mac_run))
+        cases.append(("mackeys", s))
     mac = guard(Mac)
     a_mac = ["52", "54", "00", "aa", "FF", "ff", "0", ":", ":", "-", " ", "x", "g", "52:54:00:aa:bb:cc", "00:00:00:00:00:00",
              "FF:ff:FF:ff:FF:ff", "AA-BB-CC-DD-EE-FF", u"\xe9", "_", "."]
@@ -1456,6 +1566,13 @@ def recogniser_streams(chk, n):
     # the host stream compares sets in first-discovery order: de-duplicate the model's list, drop the system itself
     fixed = []
     for cse, m in zip(cases, model):
+        if cse[0] in ("ipkeys", "mackeys") and m != "-":
+            seen, outl = set(), []                # mapping() lists every original once, in the order of first substitution
+            for it in m.split(","):
+                if it not in seen:
+                    seen.add(it)
+                    outl.append(it)
+            m = ",".join(outl)
         if cse[0] == "host" and m != "-":
             seen, outl = set(), []
             for it in m.split(","):
@@ -1464,9 +1581,9 @@ def recogniser_streams(chk, n):
                     outl.append(it)
             m = ",".join(outl) or "-"
         fixed.append(m)
-    for name in ("ipv4", "mac", "host", "pw", "repl", "rx", "cls"):
+    for name in ("ipv4", "ipkeys", "mac", "mackeys", "host", "pw", "repl", "rx", "cls"):
         idx = [i for i, c in enumerate(cases) if c[0] == name]
-        chk.compare("recogniser:" + name, [cases[i] for i in idx], [impl[i] for i in idx], [fixed[i] for i in idx])
+        chk.compare("recogniser:" + {"ipkeys": "ipv4-substituted-vs-ignored", "mackeys": "mac-substituted-vs-ignored"}.get(name, name), [cases[i] for i in idx], [impl[i] for i in idx], [fixed[i] for i in idx])
         for i in idx:
             chk.case(cases[i], nontrivial=impl[i] not in ("-", "0", "00"))
 
@@ -1704,7 +1821,7 @@ def replay_one(case):
     return bool(fails), differs
 
 
-REC_OPS = {"ipv4": 1, "mac": 1, "host": 2, "pw": 1, "repl": 3, "rx": 2, "cls": 1}
+REC_OPS = {"ipv4": 1, "ipkeys": 1, "mac": 1, "mackeys": 1, "host": 2, "pw": 1, "repl": 3, "rx": 2, "cls": 1}
 
 
 def replay_recogniser(c):
@@ -1712,6 +1829,11 @@ def replay_recogniser(c):
     name = c[0]
 
     def impl_side():
+        if name in ("ipkeys", "mackeys"):
+            o = IPv4() if name == "ipkeys" else Mac()
+            if c[1]:
+                o.parse_line(c[1])
+            return items([m["original"] for m in o.mapping()])
         if name == "ipv4":
             return items([m[0] for m in re.findall(IPv4().pattern, c[1])])
         if name == "mac":
@@ -1726,7 +1848,9 @@ def replay_recogniser(c):
         if name == "pw":
             return enc(Password().parse_line(c[1])) if c[1] else "-"
         return enc(c[3].replace(c[1], c[2]))
-    if name == "ipv4":
+    if name in ("ipkeys", "mackeys"):
+        line = name + "\t" + enc(c[1])
+    elif name == "ipv4":
         line = "ipv4\t" + enc(c[1])
     elif name == "mac":
         line = "mac\t" + enc(c[1])
@@ -1741,6 +1865,8 @@ def replay_recogniser(c):
         return False
     impl = guard(impl_side)
     m = run_driver("C08", [line])[0]
+    if name in ("ipkeys", "mackeys") and m != "-":
+        m = ",".join(dict.fromkeys(m.split(",")))
     if name == "host":
         m = items(sorted(set(dec(x[1:]) for x in m.split(",") if x != "-") - {c[1]}))
     print("%s %r\n  impl : %s\n  model: %s%s" % (name, c[1:], impl, m, "" if impl == m else "   <-- differs"))
